@@ -1,6 +1,7 @@
 From Coq Require Import ZArith List String Bool.
 From FV Require Import Base.Ser Base.Res C02.Model C02.ModelGlyf.
 From FV Require C02.ModelCmap C02.ModelComponent C02.ModelKern C02.ModelCmap6 C02.ModelCmap4.
+From FV Require C02.ModelCmap0.
 Import ListNotations.
 Open Scope string_scope.
 Definition cmap12_compile_t (hdr : Z * Z * Z * Z) (m : list (Z * Z)) : Res (list Z) :=
@@ -32,6 +33,8 @@ Definition reg : registry := [
   ("kern0_decompile", run2 ModelKern.kern0_decompile);
   ("cmap6_compile", run2 ModelCmap6.cmap6_compile);
   ("cmap6_decompile", run1 ModelCmap6.cmap6_decompile);
+  ("cmap0_compile", run2 ModelCmap0.cmap0_compile);
+  ("cmap0_decompile", run1 ModelCmap0.cmap0_decompile);
   ("cmap4_compile", run2 ModelCmap4.cmap4_compile);
   ("cmap4_decompile", run1 ModelCmap4.cmap4_decompile);
   ("splitRange", run3 (fun S E m => @Ok (list Z * list Z) (ModelCmap4.splitRange S E m)))
